@@ -622,19 +622,76 @@ func replay(l *loaded, disk map[string]string, registry map[string][]string, rep
 		if race {
 			args = append([]string{"test", "-race"}, args[1:]...)
 		}
-		cmd := exec.Command("go", args...)
-		cmd.Dir = repoDir
-		cmd.Env = append(os.Environ(), "GOFLAGS=-mod=mod", "GOPROXY=off", "GOSUMDB=off", "GOTOOLCHAIN=local", "VERIF_REPLAY_DIR="+replayDir)
-		o, err := cmd.CombinedOutput()
+		var o []byte
+		var err error
 		got := false
-		for _, ln := range strings.Split(string(o), "\n") {
-			if strings.HasPrefix(ln, "VERIF-REPLAY ") {
-				parts := strings.SplitN(ln, " ", 3)
-				if len(parts) == 3 && !strings.HasPrefix(parts[2], "skip") {
-					out[parts[1]] = parts[2]
+		curDir := replayDir
+		for round := 0; round < 8; round++ {
+			cmd := exec.Command("go", args...)
+			cmd.Dir = repoDir
+			cmd.Env = append(os.Environ(), "GOFLAGS=-mod=mod", "GOPROXY=off", "GOSUMDB=off", "GOTOOLCHAIN=local", "VERIF_REPLAY_DIR="+curDir)
+			o, err = cmd.CombinedOutput()
+			for _, ln := range strings.Split(string(o), "\n") {
+				if strings.HasPrefix(ln, "VERIF-REPLAY ") {
+					parts := strings.SplitN(ln, " ", 3)
+					if len(parts) == 3 && !strings.HasPrefix(parts[2], "skip") {
+						out[parts[1]] = parts[2]
+					}
+					got = true
 				}
-				got = true
 			}
+			if err == nil || race {
+				break
+			}
+			// the test process died (a panic in a goroutine of the code under test, a runtime
+			// fault): the first file without a verdict is the one that killed it
+			crash := ""
+			for _, ln := range strings.Split(string(o), "\n") {
+				if strings.HasPrefix(ln, "panic: ") || strings.HasPrefix(ln, "fatal error: ") {
+					crash = ln
+					break
+				}
+			}
+			if crash == "" {
+				break
+			}
+			files, _ := filepath.Glob(filepath.Join(curDir, "*.json"))
+			sort.Strings(files)
+			var rest []string
+			marked := false
+			for _, f := range files {
+				b := filepath.Base(f)
+				if _, ok := out[b]; ok {
+					continue
+				}
+				if !marked {
+					// only harnesses of this package can have crashed it
+					hb, _ := os.ReadFile(f)
+					mine := false
+					for _, n := range registry[pn] {
+						if strings.Contains(string(hb), "\"harness\": \""+n+"\"") {
+							mine = true
+						}
+					}
+					if mine {
+						out[b] = "reproduced crash of the test process: " + crash
+						marked = true
+						got = true
+						continue
+					}
+				}
+				rest = append(rest, f)
+			}
+			if !marked || len(rest) == 0 {
+				break
+			}
+			next := filepath.Join(work, fmt.Sprintf("%s_round%d", pn, round))
+			os.MkdirAll(next, 0o755)
+			for _, f := range rest {
+				b, _ := os.ReadFile(f)
+				os.WriteFile(filepath.Join(next, filepath.Base(f)), b, 0o644)
+			}
+			curDir = next
 		}
 		if race && (strings.Contains(string(o), "WARNING: DATA RACE") || strings.Contains(string(o), "fatal error: concurrent map")) {
 			// the race detector (or the runtime's map check) fired while the harnesses of this package ran concurrently
